@@ -93,8 +93,83 @@ Proof.
   destruct (res_invariant_proof cf (base_labels xsched)) as (s & Hr & I & Q).
   exists (mkX s []). rewrite (xrun_no_late _ _ _ Hn). cbn [xinit xs x_leaked]. rewrite Hr. cbn [obind].
   split; [reflexivity|]. split; [reflexivity|]. split; [reflexivity|].
-  destruct (capacity_exact_inv _ _ I) as (_ & H1 & H2 & _ & H3 & H4).
+  unfold Inv in I. destruct (capacity_exact_inv _ _ I) as (_ & H1 & H2 & _ & H3 & H4).
+  cbn [length] in H1. rewrite Nat.add_0_r in H1.
   repeat split; auto. intro Hlt. destruct (H3 Hlt) as (k & c' & E & _). eauto.
+Qed.
+
+(** ** exact accounting WITH failures after the reservation: each costs exactly one slot, for good *)
+Definition lk_idx (x : xstate) : list nat := map kidx (x_leaked x).
+
+Lemma inv_fail_late cf s k lk :
+  InvL cf s lk -> st_g s = GReserved k -> InvL cf (set_g s GIdle) (kidx k :: lk).
+Proof.
+  intros I Eg. destruct I. sproj. rewrite Eg in *. sproj. cbn [app] in *.
+  constructor; sproj; auto. discriminate.
+Qed.
+
+Lemma xstep_ok cf l x :
+  InvL cf (xs x) (lk_idx x) -> QInv cf (xs x) ->
+  exists x', xstep cf l x = Ok x' /\ InvL cf (xs x') (lk_idx x') /\ QInv cf (xs x').
+Proof.
+  intros I Q. destruct l as [l|built]; cbn [xstep].
+  - destruct (step_ok cf l (xs x) I Q) as (s' & E & I' & Q'). rewrite E. cbn [obind].
+    eexists. split; [reflexivity|]. cbn [xs]. unfold lk_idx in *. cbn [x_leaked]. auto.
+  - unfold g_fail_late. destruct (st_g (xs x)) as [|k|k] eqn:Eg; eauto.
+    eexists. split; [reflexivity|]. unfold lk_idx. cbn [xs x_leaked map]. split.
+    + apply inv_fail_late.
+      * destruct built; [now apply inv_reject|exact I].
+      * destruct built; exact Eg.
+    + unfold QInv in *. destruct built; cbn; rewrite Eg in Q; cbn in Q; exact Q.
+Qed.
+
+Lemma xrun_ok cf xsched x :
+  InvL cf (xs x) (lk_idx x) -> QInv cf (xs x) ->
+  exists x', xrun cf xsched x = Ok x' /\ InvL cf (xs x') (lk_idx x') /\ QInv cf (xs x').
+Proof.
+  revert x. induction xsched as [|l rest IH]; intros x I Q; cbn [xrun]; [eauto|].
+  destruct (xstep_ok cf l x I Q) as (x1 & E & I1 & Q1). rewrite E. cbn [obind]. now apply IH.
+Qed.
+
+Lemma leak_accounting_proof :
+  forall (cf : cfg) (xsched : list xlabel),
+    exists x, xrun cf xsched (xinit cf) = Ok x /\
+      res_capacity (xs x) = cap cf /\
+      res_len (xs x) = length (aorder (st_ar (xs x))) + length (st_newq (xs x))
+                       + length (gres (st_g (xs x))) + length (x_leaked x) /\
+      res_len (xs x) + st_removed (xs x) = st_created (xs x) /\
+      res_len (xs x) <= cap cf /\
+      (res_len (xs x) < cap cf ->
+         exists k c', res_try_reserve (st_ctl (xs x)) = Ok (Reserved k c') /\
+                      kidx k < cap cf /\ cfree (cs (xs x) (kidx k)) = true) /\
+      (res_len (xs x) = cap cf -> res_try_reserve (st_ctl (xs x)) = Ok ArenaFull) /\
+      NoDup (map kidx (x_leaked x)) /\
+      (forall k, In k (x_leaked x) ->
+                 kidx k < cap cf /\ cfree (cs (xs x) (kidx k)) = false /\
+                 ~ In (kidx k) (aorder (st_ar (xs x))) /\ (forall p, ~ In (k, p) (st_newq (xs x)))).
+Proof.
+  intros cf xsched.
+  destruct (xrun_ok cf xsched (xinit cf)) as (x & E & I & Q).
+  { apply inv_init. } { apply qinv_init. }
+  exists x. split; [exact E|].
+  destruct (capacity_exact_inv _ _ I) as (H0 & H1 & H2 & H3 & H4 & H5).
+  unfold lk_idx in H1. rewrite map_length in H1.
+  repeat split; auto.
+  - pose proof (i_part _ _ _ I) as P. unfold owned in P.
+    apply NoDup_app_iff in P as (_ & P & _). apply NoDup_app_iff in P as (_ & P & _).
+    now apply NoDup_app_iff in P as (_ & P & _).
+  - apply (i_nonfree _ _ _ I). unfold owned, lk_idx. rewrite !in_app_iff. right. right. right.
+    now apply in_map.
+  - apply (i_nonfree _ _ _ I). unfold owned, lk_idx. rewrite !in_app_iff. right. right. right.
+    now apply in_map.
+  - intro Hin. pose proof (i_part _ _ _ I) as P. unfold owned in P.
+    apply NoDup_app_iff in P as (_ & _ & P). apply (P _ Hin).
+    unfold lk_idx. rewrite !in_app_iff. right. right. now apply in_map.
+  - intros p Hin. pose proof (i_part _ _ _ I) as P. unfold owned in P.
+    apply NoDup_app_iff in P as (_ & P & _). apply NoDup_app_iff in P as (_ & _ & P).
+    apply (P (kidx k)).
+    + unfold nq_idx. apply in_map_iff. now exists (k, p).
+    + unfold lk_idx. rewrite in_app_iff. right. now apply in_map.
 Qed.
 
 (** the ghost [x_leaked] counts the failures after the reservation that found a key reserved *)
@@ -215,4 +290,22 @@ Proof.
     pose proof (exhausted_try_reserve _ E') as Ht.
     destruct E' as (_ & _ & Ho & Hq & Hg & _). repeat split; auto.
     unfold res_len in *. now rewrite C'.
+Qed.
+
+(** ** non-vacuity: a run with failed creations of both kinds, on a storage of capacity 1 *)
+Definition ex_fail_cf : cfg := mkCfg false true 1.
+Definition ex_fail_sched : list label :=
+  [G_fail false; G_fail true; G_reserve; G_drain_done; G_push; G_fail true;
+   A_start; A_remove; A_add; A_add; G_fail false; G_reserve].
+
+Lemma ex_failed_creations :
+  exists s, run ex_fail_cf ex_fail_sched (init ex_fail_cf) = Ok s /\
+            res_len s = 1 /\ st_created s = 1 /\ st_removed s = 0 /\
+            resolve s (mkKey 0 0) = Ok (Some 1) /\
+            st_destroyed s = [(3, Gameplay); (2, Gameplay); (0, Gameplay)] /\
+            res_try_reserve (st_ctl s) = Ok ArenaFull /\
+            no_late (map XL ex_fail_sched).
+Proof.
+  eexists. split; [vm_compute; reflexivity|]. repeat split; try (vm_compute; reflexivity).
+  intros b Hin. apply in_map_iff in Hin as (l & E & _). discriminate.
 Qed.
